@@ -368,6 +368,8 @@ pub fn generate(rng: &mut Rng, property: &str, deep: bool) -> Scn {
                 1e20,
                 1e30,
                 f32::MAX,
+                // (not a finite time, but a dt >= 0 all the same: the clock saturates)
+                f32::INFINITY,
             ]);
             dt = Some((v, Fault::Astronomical));
         } else if rng.chance(tk.p_suspend) {
